@@ -29,7 +29,8 @@ EXPLANATION = (
     "exhaustive over these patterns. After every run the module-level default_options, net.user_pf_options and the "
     "kwargs dictionary are compared with pristine copies (no mutation). The docstring bullets of init_options are "
     "compared with default_options, and every option name read through get_net_option(s)/options[...] in the package "
-    "must have a default. (R14.7) every call site of init_options in the package hands its own **kwargs over unchanged, so an "
+    "must have a default. (R14.8) set_user_pf_options stores exactly the keyword arguments it is given and hands them to no option-resolving function "
+    "before storing (shorthands are resolved per layer at merge time, so the order of storing cannot matter). (R14.7) every call site of init_options in the package hands its own **kwargs over unchanged, so an "
     "option given in the call -- including the value None and unknown options -- reaches the merge.")
 ASSUMPTIONS = ["copy.deepcopy, dict displays with ** and dict methods have their Python semantics",
                "get_fluid(net).name does not depend on the options"]
@@ -305,4 +306,31 @@ def r14_7(run):
     run.floor(2)
 
 
-RULES = [("R14.1", r14_1), ("R14.5", r14_5), ("R14.6", r14_6), ("R14.7", r14_7)]
+def r14_8(run):
+    """the user layer is stored as given: set_user_pf_options does not interpret what it stores (no expansion of `iter`, no mode
+    mapping at store time).  Shorthands are resolved per layer when the layers are merged; resolving them when they are stored
+    makes the result depend on the order in which options were stored"""
+    from ..arrnf import ANF, base_of, roots, key as tkey, show as tshow
+    ix = run.index
+    f = ix.func("pandapipes.pf.pipeflow_setup.set_user_pf_options")
+    run.analysed(f)
+    w = run.where(f, f.node)
+    kwname = f.node.args.kwarg.arg if f.node.args.kwarg else None
+    if kwname is None:
+        raise AnalysisError("set_user_pf_options no longer takes **kwargs")
+    r = ANF(ix, f, param_alias={f.params()[0]: "net"}).run()
+    ups = [c for c in r.calls() if c.fn[0] == "attr" and c.fn[2] == "update" and (
+        (c.fn[1][0] == "idx" and c.fn[1][2] == (("c", "user_pf_options"),)) or (c.fn[1][0] == "attr" and c.fn[1][2] == "user_pf_options"))]
+    run.ob("set_user_pf_options|stores-the-given-options", len(ups) == 1 and ups[0].args == (("n", kwname),) and not ups[0].cond,
+           "set_user_pf_options stores exactly the keyword arguments it was given", w, detail=tshow(ups[0].args[0])[:120] if ups and ups[0].args else None)
+    interp = [c for c in r.calls() if c.fn[0] == "f" and any(a == ("n", kwname) or a == ("star", ("n", kwname)) for a in c.args + tuple(v for _, v in c.kw))]
+    run.ob("set_user_pf_options|no-interpretation-at-store-time", not interp,
+           "the keyword arguments are not handed to an option-resolving function before they are stored", run.where(f, interp[0].node) if interp else w,
+           detail="; ".join(tshow(c.term)[:80] for c in interp))
+    other = [s_ for s_ in r.stores() if s_.index == (("c", "user_pf_options"),) and base_of(s_.base) == ("n", "net")]
+    run.ob("set_user_pf_options|reset-only-to-empty", all(s_.value[0] == "new" and s_.value[2] == "dict" for s_ in other),
+           "the stored layer is replaced only by an empty dictionary (reset)", w)
+    run.floor(3)
+
+
+RULES = [("R14.1", r14_1), ("R14.5", r14_5), ("R14.6", r14_6), ("R14.7", r14_7), ("R14.8", r14_8)]
